@@ -743,7 +743,9 @@ def _log(it, a, k):
 
 def _exp(it, a, k):
     v = it.unwrap(a[0])
-    return it.world.expf(it.toreal(v))
+    e = it.world.expf(it.toreal(v))
+    it.assume(e > 0)          # ground instance of the real-analysis axiom exp(x) > 0 (A-real)
+    return e
 
 
 # uninterpreted log / exp over the reals (A-real); axioms are added by the contracts that need them
